@@ -121,7 +121,8 @@ def link_overload(draw, m):
             extra = f' on source delete {spol};' if use_source else ''
             body.append(f'overloaded link lk -> {q("LT")} {{ on target delete {policy};{extra} }}')
         if over_prop is not None:
-            body.append(f"overloaded property lv -> str {{ default := {over_prop}; }}")
+            inner = '' if over_prop == '' else f'default := {over_prop}; '
+            body.append(f"overloaded property lv -> str {{ {inner}annotation title := 'kept'; }}")
         body.append('property lcown -> str')
         return raw('LC', f'type {{NAME}} extending {q("LP")} {{ ' + '; '.join(body) + '; }')
     lg = raw('LG', f'type {{NAME}} extending {q("LC")} {{ property lgown -> str; }}')
@@ -137,6 +138,8 @@ def link_overload(draw, m):
     }
     if over_prop is not None:
         B['remove-prop-override'] = common + [(m, parent()), (m, child(over_prop=None))]
+        # the explicit value goes, the overload itself (an annotation) stays
+        B['drop-value-keep-overload'] = common + [(m, parent()), (m, child(over_prop=''))]
         B['change-parent-default'] = common + [(m, parent(default="'z'")), (m, child(over_prop=over_prop))]
         B['parent-not-readonly'] = common + [(m, parent(readonly=False)), (m, child(over_prop=over_prop))]
     return dict(name='link-overload', A=A, B=B)
